@@ -5,6 +5,8 @@ import Heph.Model.TransKotlin
    printed by a translator object that has already translated the programs of `history`
  * `trans.kotlin.doc` (same request) → `[[tag, name|null, text]…]`, the tagged pieces
  * `trans.kotlin.inventory` `{program}` → `[[tag, name]…]`, the declaration inventory computed from the IR
+ * `trans.kotlin.visit` `{program, ident?, is_unit?, is_lambda?, _cast_integers?}` → texts of the top-level
+   declarations visited in turn from that state, and the state afterwards
  * `trans.kotlin.state` (same request as `trans.kotlin`) → the state after translating history and program -/
 open Lean Heph Heph.TransKotlin
 namespace Driver.TransKotlin
@@ -67,6 +69,17 @@ def handle : Handler := fun op j =>
       let p ← getProgram j
       let st := after (initObj (getPackage j)) (← getHistory j)
       pure (res (stJson (visitProgram st p))))
+  | "trans.kotlin.visit" => some (do
+      -- visit the top-level declarations one by one from a hand-set state (no `visit_program`)
+      let p ← getProgram j
+      let st0 : St := { ident := (j.getObjValAs? Nat "ident").toOption.getD 0,
+                        isUnit := (j.getObjValAs? Bool "is_unit").toOption.getD false,
+                        isLambda := (j.getObjValAs? Bool "is_lambda").toOption.getD false,
+                        cast := (j.getObjValAs? Bool "_cast_integers").toOption.getD false,
+                        context := programClasses p }
+      let r := visitL st0 p.decls
+      pure (res (Json.mkObj [("texts", Json.arr (r.2.toArray.map fun d => Json.str (flatten d))),
+                             ("state", stJson { st := r.1 })])))
   | "trans.kotlin.inventory" => some (do
       let p ← getProgram j
       pure (res (Json.arr ((inventory p).toArray.map fun t => Json.arr (tagJson t).toArray))))
